@@ -37,6 +37,7 @@ type Gen struct {
 	qSeq      int
 	queue     []*Op // ops of a multi-step scenario still to be emitted
 	bulkDrawn bool
+	bigDone   bool
 	hot       uint16 // components preferred by this case, so that entities share archetypes
 	N         int    // planned number of ops
 	resetAt   int
@@ -492,6 +493,10 @@ func (g *Gen) genNewBatch(t *rapid.T) *Op {
 	op := &Op{K: "newBatch", N: rapid.IntRange(1, 9).Draw(t, "count")}
 	if g.P.BigBatches && rapid.IntRange(0, 3).Draw(t, "bigBatch") == 0 {
 		op.N = rapid.IntRange(60, 90).Draw(t, "bigCount")
+	} else if !g.P.BigBatches && !g.bigDone && rapid.IntRange(0, 99).Draw(t, "rareBigBatch") == 50 {
+		// every profile: now and then one table beyond 64 / 128 rows (at most once per case, the per-step oracle is linear)
+		g.bigDone = true
+		op.N = rapid.SampledFrom([]int{63, 64, 65, 70, 127, 128, 129, 140}).Draw(t, "bigCount")
 	}
 	if rapid.IntRange(0, 4).Draw(t, "batchWorld") == 0 {
 		op.P = PWorld
